@@ -242,6 +242,11 @@ func runC13(p *core.Prog, r *core.Report) {
 	}
 	// ---------------- R5 who may remove files of the tree
 	r5 := r.Rule("C13.R5", "files of the tree are removed only by the delete operation and by the tabled removers of temporary names; no writer removes anything at a final object path", 4)
+	fileRemoversTabled(p, r, r5)
+}
+
+// fileRemoversTabled: shared by C13.R5 and C12.R5.
+func fileRemoversTabled(p *core.Prog, r *core.Report, r5 *core.RuleH) {
 	removers := map[string]string{
 		"(*" + fst + "FSTree).Delete":                "the delete operation: removes the object's own file",
 		"(*" + fst + "FSTree).CleanUpTmp":            "start-up cleaner: only names containing the temporary-name separator",
@@ -264,7 +269,7 @@ func runC13(p *core.Prog, r *core.Report) {
 		r5.Check(ok, outer+"#"+s.Name, p.InstrPos(s.Call), "tabled remover: "+why, outer+" removes a file but is not a tabled remover: a writer that 'cleans up' at the final object path deletes the complete copy an earlier acknowledged write put there")
 	}
 	if nrm == 0 {
-		r.Fatalf("C13.R5: no file removal found in fstree (not even Delete)")
+		r.Fatalf(r5.ID() + ": no file removal found in fstree (not even Delete)")
 	}
 }
 
@@ -483,6 +488,11 @@ func runC12(p *core.Prog, r *core.Report) {
 			r4.Check(t == errEEXIST, name+"#errors.Is", p.InstrPos(s.Call), "tolerates EEXIST only", "a link error other than EEXIST ("+t+") is tolerated")
 		}
 	}
+	// R5 a stored object's file is removed only by Delete (shared with C13.R5): a writer that removes the file at the final
+	// path before re-publishing it loses an acknowledged object when the process stops in between
+	r5 := r.Rule("C12.R5", "files of the tree are removed only by the delete operation and by the tabled removers of temporary names: no write path removes the file at a final object path, so an acknowledged object cannot disappear when a repeated write is interrupted", 4)
+	fileRemoversTabled(p, r, r5)
+	r.Explain += " (R5, shared with C13.R5) every file removal in the package sits in Delete or in a tabled remover of temporary names; a write path that first removes the file at the final path and then publishes a new one loses an acknowledged object if the process stops in between."
 }
 
 // lenFacts: "n == len(data)" in both comparison forms for the first result of callee.
